@@ -20,6 +20,8 @@ import PydapModel.Cache
 import Proofs.Cache
 import PydapModel.Consolidate
 import Proofs.Consolidate
+import PydapModel.Transport
+import Proofs.Transport
 import PydapModel.Sessions
 import Proofs.Sessions
 namespace Pydap.C18
@@ -565,5 +567,114 @@ example : ∀ x ∈ (Sessions.runFile id (fun r : CK.Req => r.url) ⟨[[], []], 
     x.2.resp = x.2.req.url ∧ (x.2.key = none ∨ x.2.key = some (Key.orig x.2.req.url)) :=
   C18_bystander_shared_file id (fun r => r.url) (fun _ _ h => h) (fun _ _ h => h) _ _ 1 (Sessions.finv_nil _ _)
     (by intro ds h; cases h; rfl) (by intro files h; simp [Sessions.exHist] at h)
+
+/-! ### transport: content coding, whole and streamed reads -/
+open Pydap.Transport
+
+/-- **Caching never changes the bytes the reader gets, for both read paths.**  Any history of GETs — each with
+    its read path (whole `r.content` / streamed `r.iter_content()`), its `stream=` keyword and the cuts the
+    network makes in the stream this time —, any server answering each request with a header (`none`, `gzip`,
+    a coding without decoder) and a body, any decoder `unz`: when equal keys mean equal answers on the requests
+    of the history (the hypothesis of `runCached_transparent`, discharged for the real keys below), the bytes
+    obtained through the caching session (requests_cache stores the header and the DECODED content and replays
+    them without decoding again) equal the bytes obtained through the plain session, read by read. -/
+theorem C18_cached_equals_plain {α κ : Type} [DecidableEq κ] (unz : Bytes → Bytes) (key : α → κ) (srv : α → Served)
+    (hist : List (Get α))
+    (hks : ∀ u1 ∈ hist.map (·.req), ∀ u2 ∈ hist.map (·.req), key u1 = key u2 → srv u1 = srv u2) :
+    readsCached unz key srv hist = readsPlain unz srv hist := by
+  rw [readsCached_eq unz key srv hist hks, readsPlain_eq]
+
+/-- the same with the unpatched keys (injective on the requests of the history): no hypothesis on the server -/
+theorem C18_cached_equals_plain_url {α κ : Type} [DecidableEq κ] (unz : Bytes → Bytes) (key : α → κ)
+    (srv : α → Served) (hist : List (Get α))
+    (hinj : ∀ u1 ∈ hist.map (·.req), ∀ u2 ∈ hist.map (·.req), key u1 = key u2 → u1 = u2) :
+    readsCached unz key srv hist = readsPlain unz srv hist :=
+  C18_cached_equals_plain unz key srv hist (fun u1 h1 u2 h2 hk => by rw [hinj u1 h1 u2 h2 hk])
+
+/-- the same with the consolidated keys of `patch_session_for_shared_dap_cache`, under the hypotheses of
+    `C18_cache_transparent_customKey` (which carries the cache part) stated for the wire server -/
+theorem C18_cached_equals_plain_customKey (unz : Bytes → Bytes) (orig : List Char → List Char)
+    (horig : ∀ a b, orig a = orig b → a = b) (shared : List (List Char)) (base : Option Base)
+    (srv : CK.Req → Served) (hist : List (Get CK.Req))
+    (hfun : ∀ r1 ∈ hist.map (·.req), ∀ r2 ∈ hist.map (·.req), r1.url = r2.url → srv r1 = srv r2)
+    (hshared : ∀ r1 ∈ hist.map (·.req), ∀ r2 ∈ hist.map (·.req), SharedDim shared base r1 r2 → srv r1 = srv r2) :
+    readsCached unz (customKey orig shared base) srv hist = readsPlain unz srv hist := by
+  rw [readsPlain_eq]
+  refine readsCached_of_transparent unz _ srv hist
+    (C18_cache_transparent_customKey orig horig shared base (storedFor unz srv) _ ?_ ?_)
+  · intro r1 h1 r2 h2 e; simp only [storedFor, decoded, hfun r1 h1 r2 h2 e]
+  · intro r1 h1 r2 h2 e; simp only [storedFor, decoded, hshared r1 h1 r2 h2 e]
+
+/-- **Whole = join of the streamed chunks = the served payload, gzip or not, plain or cached.**  Under
+    `unz (z b) = b` (the only fact about gzip, a hypothesis), for a server that answers every request with its
+    payload either as it is or gzip-coded with the header set: on a response of a plain session, whatever the
+    cuts and `stream=`, `r.content` and the concatenation of `r.iter_content()` are the payload; every read of
+    every history through the caching session is the payload; and on the application path (`net.GET` +
+    `decode_content()`), the whole-body readers and `app_iter` give the payload too. -/
+theorem C18_read_paths_agree {α κ : Type} [DecidableEq κ] (z unz : Bytes → Bytes) (hz : ∀ b, unz (z b) = b)
+    (payload : α → Bytes) (gz : α → Bool) :
+    (∀ (u : α) (streamKw : Bool) (cuts : List Nat),
+        readWhole (requestsSend unz streamKw ⟨(serve z payload gz u).enc, (serve z payload gz u).body, cuts⟩) = payload u ∧
+        readStream (requestsSend unz streamKw ⟨(serve z payload gz u).enc, (serve z payload gz u).body, cuts⟩) = payload u) ∧
+    (∀ (key : α → κ) (hist : List (Get α)),
+        (∀ u1 ∈ hist.map (·.req), ∀ u2 ∈ hist.map (·.req), key u1 = key u2 → payload u1 = payload u2 ∧ gz u1 = gz u2) →
+        readsCached unz key (serve z payload gz) hist = hist.map (fun g => payload g.req)) ∧
+    (∀ u : α, ∃ r, appGet unz (serve z payload gz u) = .ok r ∧ appWhole unz r = payload u ∧ appStream r = payload u) := by
+  have hdec : ∀ u, decoded unz (serve z payload gz) u = payload u := by
+    intro u
+    simp only [decoded, serve]
+    cases gz u <;> simp [decodeBody, hz]
+  refine ⟨?_, ?_, ?_⟩
+  · intro u s cuts
+    exact ⟨(read_send unz .whole s _).trans (hdec u), (read_send unz .stream s _).trans (hdec u)⟩
+  · intro key hist hk
+    rw [readsCached_eq unz key _ hist (fun u1 h1 u2 h2 e => by simp only [serve, (hk u1 h1 u2 h2 e).1, (hk u1 h1 u2 h2 e).2])]
+    simp only [hdec]
+  · intro u
+    simp only [serve]
+    cases gz u
+    · exact ⟨_, rfl, by simp [appWhole], by simp [appStream, join]⟩
+    · exact ⟨_, rfl, by simp [appWhole, hz], by simp [appStream, join, hz]⟩
+
+/-- **The content is not vacuous: reading the urllib3 object instead of `iter_content()` breaks it** (the
+    seeded change C18-w).  With the toy codec `z b = 0x1f :: b`, `unz = tail` (so `unz (z b) = b`), injective keys
+    and a gzip-coding server: the second streamed read of a URL (a cache hit: `r.raw` is a `CachedHTTPResponse`
+    that never decodes) hands the reader the coded bytes; the plain session hands it the payload. -/
+theorem C18_raw_stream_refuted :
+    ¬ (∀ (z unz : Bytes → Bytes), (∀ b, unz (z b) = b) → ∀ (payload : Nat → Bytes) (hist : List (Get Nat)),
+        readsCachedRaw unz (fun u : Nat => u) (serve z payload (fun _ => true)) hist
+          = readsPlain unz (serve z payload (fun _ => true)) hist) := by
+  intro h
+  have := h (fun b => 0x1f :: b) List.tail (fun _ => rfl) (fun _ => [7, 8]) [⟨0, .stream, true, [1]⟩, ⟨0, .stream, true, []⟩]
+  revert this
+  decide
+
+/-! #### non-vacuity (toy codec `z b = 0x1f :: b`, `unz = tail`) -/
+/-- a history mixing whole and streamed reads, `stream=` on and off, different cuts, two URLs, one gzip-coded:
+    misses and hits, and every read is the payload -/
+example : (runTrace (fun g : Get Nat => g.req) (storeOf List.tail (serve (fun b => 0x1f :: b) (fun u => [u.toUInt8, 9, 9]) (· == 1))) []
+      [⟨1, .stream, true, [1, 1]⟩, ⟨2, .whole, false, []⟩, ⟨1, .whole, false, [0, 2]⟩, ⟨1, .stream, true, [5]⟩, ⟨2, .stream, true, [2]⟩]).map (·.1)
+      = [false, false, true, true, true] ∧
+    readsCached List.tail (fun u : Nat => u) (serve (fun b => 0x1f :: b) (fun u => [u.toUInt8, 9, 9]) (· == 1))
+      [⟨1, .stream, true, [1, 1]⟩, ⟨2, .whole, false, []⟩, ⟨1, .whole, false, [0, 2]⟩, ⟨1, .stream, true, [5]⟩, ⟨2, .stream, true, [2]⟩]
+      = [[1, 9, 9], [2, 9, 9], [1, 9, 9], [1, 9, 9], [2, 9, 9]] := by decide
+/-- the pieces really are pieces: three chunks from the unread stream, one byte per step once consumed -/
+example : (requestsSend List.tail true ⟨.gzip, [0x1f, 1, 2, 3, 4], [1, 2]⟩).iterContent = [[1], [2, 3], [4]] ∧
+    (requestsSend List.tail false ⟨.gzip, [0x1f, 1, 2, 3, 4], [1, 2]⟩).iterContent = [[1], [2], [3], [4]] ∧
+    (fromStored (toStored (requestsSend List.tail true ⟨.gzip, [0x1f, 1, 2, 3, 4], [1, 2]⟩))) = ⟨.gzip, some [1, 2, 3, 4], [], true⟩ := by
+  decide
+/-- the hypotheses of `C18_cached_equals_plain` / `C18_read_paths_agree` hold on such a history -/
+example : readsCached List.tail (fun u : Nat => u) (serve (fun b => 0x1f :: b) (fun u => [u.toUInt8]) (· == 1))
+      [⟨1, .stream, true, [1]⟩, ⟨1, .whole, false, []⟩]
+    = readsPlain List.tail (serve (fun b => 0x1f :: b) (fun u => [u.toUInt8]) (· == 1)) [⟨1, .stream, true, [1]⟩, ⟨1, .whole, false, []⟩] :=
+  C18_cached_equals_plain_url _ _ _ _ (fun _ _ _ _ h => h)
+/-- a coding webob does not know raises on the application path; the requests path passes it through -/
+example : appGet List.tail ⟨.other, [1]⟩ = .error .valueError ∧
+    readWhole (requestsSend List.tail false ⟨.other, [1, 2], [1]⟩) = [1, 2] := ⟨rfl, by decide⟩
+/-- a non-injective key does change the bytes (why `hks` is there) -/
+example : readsCached List.tail (fun _ : Nat => 0) (serve (fun b => 0x1f :: b) (fun u => [u.toUInt8]) (fun _ => true))
+      [⟨1, .whole, false, []⟩, ⟨2, .whole, false, []⟩]
+    ≠ readsPlain List.tail (serve (fun b => 0x1f :: b) (fun u => [u.toUInt8]) (fun _ => true)) [⟨1, .whole, false, []⟩, ⟨2, .whole, false, []⟩] := by
+  decide
 
 end Pydap.C18
